@@ -142,7 +142,7 @@ fn pattern(len: usize, seed: u8) -> Vec<u8> {
 // (a) broadcast flag
 // ---------------------------------------------------------------------------
 
-fn base_header() -> RefDhcp {
+pub fn base_header() -> RefDhcp {
     RefDhcp {
         op: 1,
         htype: 1,
